@@ -19,17 +19,57 @@ variable {V : Type}
     (the step-1 branch takes one bit slice, the other branch appends `data[s:s+L]` for `s` in a range of bit offsets). -/
 theorem getSlice_chunks (c : Codec V) (hu : c.mult = 1) (hL : 0 < c.L) (d : Bits) (s e st : Option Int) :
     getSlice c d s e st = (Py.getSlice (chunks c.w d) s e st).map List.flatten := by
-  sorry
+  obtain ⟨bs, t, hbs, ht, rfl, hch, htr, hlen, hit⟩ := blocks_view c hu hL d
+  rw [hch, pyGetSlice_getD]
+  unfold getSlice
+  rw [hlen]
+  generalize hst' : st.getD 1 = k
+  by_cases h0 : k = 0
+  · subst h0
+    simp [Py.getSlice, Except.map]
+  · simp only [h0, if_false]
+    by_cases h1 : k = 1
+    · subst h1
+      simp only [ne_eq, not_true_eq_false, if_false]
+      have hr := sliceIndices_pos_range s e 1 (by omega) bs.length
+      rw [getSlice_step1_blocks c.L bs t hbs _ _ ⟨hr.1, hr.2.1⟩ ⟨hr.2.2.1, hr.2.2.2⟩]
+      have : Py.getSlice bs s e (some 1) = Py.getSlice bs s e none := rfl
+      rw [this, C01.getSlice_step1]
+      rfl
+    · simp only [ne_eq, h1, not_false_eq_true, if_true]
+      rw [pyGetSlice_eq bs s e k h0]
+      rw [rangeList_scaled _ _ _ (c.L : Int) (by omega) h0]
+      rw [getSlice_fold c.L bs t hbs _ (fun i hi => rangeList_slice_mem s e k h0 bs.length i hi) []]
+      simp [Except.map]
 
 /-- Item level: slicing = Python list slicing, and the result has no trailing bits. -/
 theorem getSlice_refines (c : Codec V) (hu : c.mult = 1) (hL : 0 < c.L) (d : Bits) (s e st : Option Int) :
     (getSlice c d s e st).map (items c) = Py.getSlice (items c d) s e st ∧
     ∀ r, getSlice c d s e st = .ok r → trailing c.w r = [] := by
-  sorry
+  have hc := getSlice_chunks c hu hL d s e st
+  have hw := w_eq_L c hu
+  have hit : items c d = (chunks c.w d).map c.dec := rfl
+  have hcl : ∀ b ∈ chunks c.w d, b.length = c.L := by
+    rw [hw]; exact chunks_mem_length c.L hL d
+  rw [hc, hit, pyGetSlice_map]
+  cases hp : Py.getSlice (chunks c.w d) s e st with
+  | error er => exact ⟨rfl, fun r hr => by cases hr⟩
+  | ok r =>
+    have hr : ∀ b ∈ r, b.length = c.L := fun b hb => hcl b (pyGetSlice_mem _ _ _ _ _ hp b hb)
+    have hv := view_of_blocks c hu hL r [] hr hL
+    rw [List.append_nil] at hv
+    refine ⟨?_, ?_⟩
+    · simp only [Except.map, hv.1]
+    · intro r' hr'
+      simp only [Except.map] at hr'
+      injection hr' with hr'
+      subst hr'
+      exact hv.2.1
 
 theorem getSlice_step_zero (c : Codec V) (d : Bits) (s e : Option Int) :
     getSlice c d s e (some 0) = .error .value := by
-  sorry
+  unfold getSlice
+  simp
 
 /-! ### a[start:stop:step] = values -/
 
